@@ -126,7 +126,7 @@ def invalid_op(rng, base, kind):
         op["expect"] = None
     elif kind == "binary_without_srpm":
         if op["category"] == "source":
-            return invalid_op(rng, base, "empty_path")
+            return invalid_op(rng, base, "bad_arch")
         op["srpm"] = None
         op["expect"] = None
     return op
